@@ -6,6 +6,8 @@
 
 package py
 
+import "sync/atomic"
+
 // The most items (or bytes) a repeated sequence may have
 const maxRepeatLength = 1 << 40
 
@@ -22,12 +24,39 @@ func repeatLength(m int, count Int) (int, error) {
 	return int(count) * m, nil
 }
 
+// The number of container operations which recurse into the members
+// of the container (repr, comparisons) in progress in the process
+var containerDepth int32
+
+// The most of them there may be: a container which contains itself
+// would otherwise recurse until the go stack overflows, which cannot
+// be recovered from
+const maxContainerDepth = 50000
+
+// enterContainer is called before recursing into the members of a
+// container.  If it returns nil leaveContainer must be called after.
+func enterContainer() error {
+	if atomic.AddInt32(&containerDepth, 1) > maxContainerDepth {
+		atomic.AddInt32(&containerDepth, -1)
+		return ExceptionNewf(RuntimeError, "maximum recursion depth exceeded")
+	}
+	return nil
+}
+
+func leaveContainer() {
+	atomic.AddInt32(&containerDepth, -1)
+}
+
 // Orders two sequences of objects as list and tuple do
 //
 // The first pair of items which differ decides, using op on them (one
 // of Lt, Le, Gt, Ge); if there is none the lengths decide, using
 // lenOp.
 func sequenceOrder(a, b []Object, op func(a, b Object) (Object, error), lenOp func(la, lb int) bool) (Object, error) {
+	if err := enterContainer(); err != nil {
+		return nil, err
+	}
+	defer leaveContainer()
 	for i := 0; i < len(a) && i < len(b); i++ {
 		eq, err := Eq(a[i], b[i])
 		if err != nil {
